@@ -6,8 +6,8 @@
 namespace DV.Config
 
 /-- `AvpAddress.value` getter wraps `struct.error` / `ValueError` /
-    `UnicodeDecodeError` into `AvpDecodeError` (false on the pinned tree). -/
-def addrGuard : Bool := false
+    `UnicodeDecodeError` into `AvpDecodeError` (true since the `fix:` commit for C04; false on the pinned tree). -/
+def addrGuard : Bool := true
 
 /-- `Message.from_bytes` restores the received flag octet after constructing
     the command class (true since the `fix:` commit for C02; the pinned tree let
